@@ -339,6 +339,7 @@ def suite_C01(g, tier):
     if SHIM:
         shim_programs(g, tier)
     cold_programs(g, tier, "C01")
+    stale_state_programs(g, tier, "C01")
     n_single = 10 if tier == "quick" else 120
     algs = ["Point.ScalarMult", "Point.ScalarBaseMult", "Point.VarTimeDoubleScalarBaseMult"]
     for it in range(n_single):
@@ -410,7 +411,18 @@ def suite_C01(g, tier):
                 p.op("Point.VarTimeMultiScalarMult", r=r, ss=["s0", "s3", "s0"], ps=["p1", "p1", "p1"])
                 p.op("Point.Bytes", r=r, o=["b0"])
     # larger term counts (chunked / batched implementations have remainders), through repeated registers
-    sizes = [5, 7, 9, 17] if tier == "quick" else [5, 6, 7, 9, 12, 15, 16, 17, 31, 32, 33, 64, 65]
+    sizes = [5, 7, 9, 17] if tier == "quick" else [5, 6, 7, 9, 12, 15, 16, 17, 31, 32, 33, 64, 65, 127, 128, 129]
+    # term counts at integer-width boundaries, with identical tiny scalars (every term contributes to the same digit positions)
+    for alg in ["Point.MultiScalarMult", "Point.VarTimeMultiScalarMult"]:
+        for n in ([255, 256, 257] if tier == "quick" else [255, 256, 257, 511, 512, 513, 1024]):
+            p = g.new("C01 %s n=%d identical tiny scalars" % (alg, n))
+            for j in range(3):
+                load_point(p, "p%d" % (1 + j), any_point(rng), rng)
+            p.scalar_canon("s0", rng.choice([1, 3, 33, 5]))
+            p.scalar_canon("s1", 1)
+            prep_receiver(p, "p0", rng, rng.choice(RECV_KINDS))
+            p.op(alg, r="p0", ss=["s0"] * n, ps=[rng.choice(["p1", "p2", "p3"]) for _ in range(n)])
+            p.op(alg, r="p4", ss=["s1"] * n, ps=["p1"] * n)
     for alg in ["Point.MultiScalarMult", "Point.VarTimeMultiScalarMult"]:
         for n in sizes:
             p = g.new("C01 %s n=%d" % (alg, n))
